@@ -1328,6 +1328,8 @@ def fold_substituted_tests(fn: ast.AST, is_method) -> bool:
     The arm that cannot run is dropped.  `is_method(name)` says whether `self.<name>` is a plain method of the class."""
     changed = False
 
+    not_none: set = set()   # names known to be an instance of a class here (inside `case Cls():` of `match name`)
+
     def ev(t):
         if isinstance(t, ast.Constant) and isinstance(t.value, bool):
             return t.value
@@ -1341,6 +1343,8 @@ def fold_substituted_tests(fn: ast.AST, is_method) -> bool:
             return True if any(v is True for v in vs) else (False if all(v is False for v in vs) else None)
         if isinstance(t, ast.Compare) and len(t.ops) == 1:
             l, r, op = t.left, t.comparators[0], t.ops[0]
+            if isinstance(op, (ast.Is, ast.IsNot)) and isinstance(l, ast.Name) and l.id in not_none and isinstance(r, ast.Constant) and r.value is None:
+                return isinstance(op, ast.IsNot)
 
             def kind(x):
                 if isinstance(x, ast.Constant):
@@ -1395,7 +1399,17 @@ def fold_substituted_tests(fn: ast.AST, is_method) -> bool:
                         h.body.append(ast.copy_location(ast.Pass(), s))
             if isinstance(s, ast.Match):
                 for c in s.cases:
+                    pt = c.pattern.pattern if isinstance(c.pattern, ast.MatchAs) and c.pattern.pattern is not None else c.pattern
+                    added = None
+                    if isinstance(s.subject, ast.Name) and isinstance(pt, ast.MatchClass) and s.subject.id not in not_none \
+                            and not any(isinstance(x, ast.Name) and x.id == s.subject.id and isinstance(x.ctx, ast.Store) for b in c.body for x in ast.walk(b)):
+                        added = s.subject.id
+                        not_none.add(added)
                     rewrite(c.body)
+                    if added:
+                        not_none.discard(added)
+                    if not c.body:
+                        c.body.append(ast.copy_location(ast.Pass(), s))
             i += 1
 
     rewrite(fn.body)
@@ -1445,6 +1459,65 @@ def hoist_common_tails(fn: ast.AST) -> bool:
             i += 1
 
     rewrite(fn.body)
+    if changed:
+        ast.fix_missing_locations(fn)
+    return changed
+
+
+# ---------------------------------------------------------------------------
+def fold_tuple_locals(fn: ast.AST) -> bool:
+    """`shape = (n, m)` ... `np.full(shape + (3,), x)`, `np.ones(shape[:1])`, `np.zeros(shape)`  ->  the tuples written out.
+    Only for a local bound exactly once to a tuple display of simple elements that are not rebound afterwards."""
+    changed = False
+
+    def simple(e):
+        return isinstance(e, (ast.Constant, ast.Name)) or (isinstance(e, ast.Attribute) and simple(e.value))
+
+    stores = {}
+    for n in ast.walk(fn):
+        if isinstance(n, ast.Name) and isinstance(n.ctx, (ast.Store, ast.Del)):
+            stores[n.id] = stores.get(n.id, 0) + 1
+    params = {a.arg for a in ast.walk(fn) if isinstance(a, ast.arg)}
+    defs = {}
+    for n in ast.walk(fn):
+        if isinstance(n, ast.Assign) and len(n.targets) == 1 and isinstance(n.targets[0], ast.Name) and isinstance(n.value, ast.Tuple) \
+                and stores.get(n.targets[0].id) == 1 and n.targets[0].id not in params and all(simple(x) for x in n.value.elts):
+            if all(stores.get(x.id, 0) <= 1 or x.id in params and stores.get(x.id, 0) == 0 for e in n.value.elts for x in ast.walk(e) if isinstance(x, ast.Name)):
+                defs[n.targets[0].id] = n.value
+    if not defs:
+        return False
+
+    class T(ast.NodeTransformer):
+        def visit_Subscript(self, n):
+            nonlocal changed
+            self.generic_visit(n)
+            if isinstance(n.value, ast.Tuple) and isinstance(n.ctx, ast.Load):
+                try:
+                    idx = ast.literal_eval(ast.Expression(n.slice)) if not isinstance(n.slice, ast.Slice) else slice(
+                        *(None if x is None else ast.literal_eval(ast.Expression(x)) for x in (n.slice.lower, n.slice.upper, n.slice.step)))
+                    r = n.value.elts[idx]
+                except Exception:
+                    return n
+                changed = True
+                return ast.copy_location(ast.Tuple(list(r), ast.Load()), n) if isinstance(r, list) else copy.deepcopy(r)
+            return n
+
+        def visit_BinOp(self, n):
+            nonlocal changed
+            self.generic_visit(n)
+            if isinstance(n.op, ast.Add) and isinstance(n.left, ast.Tuple) and isinstance(n.right, ast.Tuple):
+                changed = True
+                return ast.copy_location(ast.Tuple(list(n.left.elts) + list(n.right.elts), ast.Load()), n)
+            return n
+
+        def visit_Name(self, n):
+            nonlocal changed
+            if isinstance(n.ctx, ast.Load) and n.id in defs:
+                changed = True
+                return ast.copy_location(copy.deepcopy(defs[n.id]), n)
+            return n
+
+    T().visit(fn)
     if changed:
         ast.fix_missing_locations(fn)
     return changed
